@@ -26,6 +26,10 @@ XmlKnobs draw_knobs(Rng& rng)
     k.rate_before_invariant = rng.chance(0.25);
     if (rng.chance(0.06))
         k.big_text_lines = rng.range(100, 900);
+    // the reader accepts <project> as the root element as well as <nta>
+    k.project_root = rng.chance(0.05);
+    if (k.project_root)
+        k.doctype = false;
     return k;
 }
 
@@ -35,7 +39,7 @@ std::string knobs_str(const XmlKnobs& k)
     os << "decl=" << k.xml_decl << " doctype=" << k.doctype << " indent=" << k.indent << " sq=" << k.single_quotes
        << " coords=" << k.coords << " shuffle=" << k.attr_shuffle << " esc=" << k.text_escape
        << " comments=" << k.comments_between << " empty=" << k.empty_elems << " pad=" << k.pad_text << " crlf=" << k.crlf
-       << " big=" << k.big_text_lines << " rate_first=" << k.rate_before_invariant << " comment_in_text=" << k.comment_in_text;
+       << " project=" << k.project_root << " big=" << k.big_text_lines << " rate_first=" << k.rate_before_invariant << " comment_in_text=" << k.comment_in_text;
     return os.str();
 }
 
@@ -257,7 +261,7 @@ std::string render_xml(const Model& m, const XmlKnobs& k, Rng& rng)
     }
     if (k.indent)
         x.os << "\n";
-    x.os << "<nta>";
+    x.os << (k.project_root ? "<project>" : "<nta>");
     x.level = 1;
     {
         std::string g = join_decls(m.gdecls);
@@ -402,7 +406,7 @@ std::string render_xml(const Model& m, const XmlKnobs& k, Rng& rng)
     }
     x.level = 0;
     x.nl();
-    x.os << "</nta>";
+    x.os << (k.project_root ? "</project>" : "</nta>");
     if (k.indent)
         x.os << "\n";
     return x.os.str();
